@@ -720,11 +720,11 @@ static inline int portable_isinfl(long double x) {
 #endif // HAVE_ISINFL
 
 // internal ftoa for fixed decimal long double
-static size_t safec_ftoa_long(out_fct_type out, const char *funcname,
+static size_t safec_ftoa_libc(out_fct_type out, const char *funcname,
                               char *buffer, size_t idx, size_t maxlen,
-                              long double value, unsigned int prec,
-                              unsigned int width, unsigned int flags,
-                              const char *format) {
+                              long double value, bool is_long,
+                              unsigned int prec, unsigned int width,
+                              unsigned int flags, const char *format) {
     char buf[64];
     char fmt[48];
     char *p = (char *)buf;
@@ -756,11 +756,13 @@ static size_t safec_ftoa_long(out_fct_type out, const char *funcname,
         fl += (size_t)snprintf(fmt + fl, 12, "%u", width);
     if (flags & FLAGS_PRECISION)
         fl += (size_t)snprintf(fmt + fl, 13, ".%u", prec);
-    fmt[fl++] = 'L';
+    if (is_long)
+        fmt[fl++] = 'L';
     fmt[fl++] = format[strlen(format) - 1];
     fmt[fl] = '\0';
 
-    n = snprintf(buf, sizeof buf, fmt, value);
+    n = is_long ? snprintf(buf, sizeof buf, fmt, value)
+                : snprintf(buf, sizeof buf, fmt, (double)value);
     if (n >= (int)sizeof buf) { // %Lf of a large value has thousands of digits
         heap = (char *)malloc((size_t)n + 1);
         if (!heap) {
@@ -769,7 +771,10 @@ static size_t safec_ftoa_long(out_fct_type out, const char *funcname,
             invoke_safe_str_constraint_handler(msg, buffer, ESNOSPC);
             return -(ESNOSPC);
         }
-        snprintf(heap, (size_t)n + 1, fmt, value);
+        if (is_long)
+            snprintf(heap, (size_t)n + 1, fmt, value);
+        else
+            snprintf(heap, (size_t)n + 1, fmt, (double)value);
         p = heap;
     }
     while (*p != 0) {
@@ -781,6 +786,15 @@ static size_t safec_ftoa_long(out_fct_type out, const char *funcname,
     }
     free(heap);
     return idx;
+}
+
+static inline size_t safec_ftoa_long(out_fct_type out, const char *funcname,
+                                     char *buffer, size_t idx, size_t maxlen,
+                                     long double value, unsigned int prec,
+                                     unsigned int width, unsigned int flags,
+                                     const char *format) {
+    return safec_ftoa_libc(out, funcname, buffer, idx, maxlen, value, true,
+                           prec, width, flags, format);
 }
 
 // internal etoa for fixed decimal long double
@@ -811,10 +825,6 @@ static inline size_t safec_atoa(out_fct_type out, const char *funcname,
                                 double value, unsigned int prec,
                                 unsigned int width, unsigned int flags,
                                 const char *format) {
-    char buf[64];
-    char *p = (char *)buf;
-    int rc = 0;
-
     if (value != value)
         return safec_out_rev(out, buffer, idx, maxlen,
                              (flags & FLAGS_UPPERCASE) ? "NAN" : "nan", 3,
@@ -833,14 +843,11 @@ static inline size_t safec_atoa(out_fct_type out, const char *funcname,
                                                              : "fni",
                                  (flags & FLAGS_PLUS) ? 4 : 3, width, flags);
     }
-    snprintf(buf, 64, format, value);
-    buf[63] = '\0';
-    while (*p != 0) {
-        rc = out(*(p++), buffer, idx++, maxlen);
-        if (unlikely(rc < 0))
-            return rc;
-    }
-    return idx;
+    // the directive is rebuilt from what was parsed: a '*' width or precision
+    // has been fetched already, and the text may be longer than 64
+    return safec_ftoa_libc(out, funcname, buffer, idx, maxlen,
+                           (long double)value, false, prec, width, flags,
+                           format);
 }
 
 // internal ftoa variant for exponential floating-point type, contributed by
